@@ -47,7 +47,12 @@ def invertible(draw, n):
 def congruence_case(draw, tier="quick"):
     norb = draw(st.integers(1, 6))
     ham = draw(gens.hamiltonian(norb, spin_dependent=True))
-    return {"norb": norb, "ham": ham, "C": draw(invertible(norb))}
+    c = {"norb": norb, "ham": ham, "C": draw(invertible(norb))}
+    # the congruence clause is a statement about the routine as a map on matrices; the repository's own tests hand it non-symmetric
+    # one-body and Cholesky matrices, so half of the cases add an antisymmetric part (C^T X C and C^T X^T C then differ)
+    if draw(st.booleans()):
+        c["antisym"] = draw(gens.real((1 + np.asarray(ham["chol"]).shape[0], norb, norb)))
+    return c
 
 
 def congruence_body(ctx, case):
@@ -55,7 +60,13 @@ def congruence_body(ctx, case):
     C = np.asarray(case["C"], float)
     h1 = np.asarray(case["ham"]["h1"], float)
     chol = np.asarray(case["ham"]["chol"], float)
-    ctx.case(case, nontrivial=(not _is_signed_perm(C)) and (not np.allclose(C, C.T)) and norb >= 2, classes=[f"norb={norb}", "C:symmetric" if np.allclose(C, C.T) else "C:non-symmetric"])
+    if case.get("antisym") is not None:
+        A = np.asarray(case["antisym"], float)
+        A = A - A.transpose(0, 2, 1)
+        h1 = h1 + A[:1]
+        chol = chol + A[1:]
+    nonsym = bool(norb >= 2 and np.max(np.abs(chol - chol.transpose(0, 2, 1)), initial=0.0) > 1e-3)
+    ctx.case(case, nontrivial=(not _is_signed_perm(C)) and (not np.allclose(C, C.T)) and norb >= 2, classes=[f"norb={norb}", "C:symmetric" if np.allclose(C, C.T) else "C:non-symmetric", "X:non-symmetric" if nonsym else "X:symmetric"])
     H = hmod.hamiltonian(norb)
     hd = {"h0": 0.1, "h1": jnp.asarray(h1), "chol": jnp.asarray(chol.reshape(-1, norb * norb)), "ene0": 0.0}
     try:
